@@ -266,6 +266,10 @@ pub enum BadCall {
     /// active input channel `ch % active` shorter than required by `missing` (clipped to 1..=need)
     InShort { ch: u8, missing: u32 },
     OutShort { ch: u8, missing: u32 },
+    /// fault, not a malformed call on this instance: a throw-away resampler of the same sample type makes a
+    /// partial call on this thread whose user buffer type panics in `as_mut()`/`as_ref()`; the unwinding is
+    /// caught by the caller. Nothing of it may reach any other instance on the thread.
+    ForeignUnwind { seed: u32 },
 }
 
 /// Control value classes for F4.
